@@ -253,6 +253,22 @@ def int_bounds(facts, x, unsigned=True):
                     upd_lo(c + 1 if strict else c)
                 else:
                     upd_hi(c if strict else c - 1)
+        # the single unsigned compare for a closed range: `x.wrapping_sub(c) <= d`  <=>  c <= x <= c + d
+        if unsigned and t[0] == "op" and t[1] in ("Lt", "Le") and len(t[2]) == 2:
+            a, b = t[2]
+            ws = None
+            if a[0] == "op" and a[1] == "wrapping_sub" and len(a[2]) == 2 and a[2][0] == x and a[2][1][0] == "const" and b[0] == "const":
+                # wrapping_sub(x, c) < / <= d
+                c_, d_ = a[2][1][1], (b[1] - 1 if t[1] == "Lt" else b[1])
+                if truth:
+                    ws = (c_, c_ + d_)
+            elif b[0] == "op" and b[1] == "wrapping_sub" and len(b[2]) == 2 and b[2][0] == x and b[2][1][0] == "const" and a[0] == "const":
+                # d < / <= wrapping_sub(x, c)   is false
+                c_, d_ = b[2][1][1], (a[1] if t[1] == "Lt" else a[1] - 1)
+                if not truth:
+                    ws = (c_, c_ + d_)
+            if ws is not None and ws[1] >= ws[0]:
+                upd_lo(ws[0]); upd_hi(ws[1])
         if unsigned and t[0] == "op" and t[1] in ("Ne", "Eq") and len(t[2]) == 2 and x in t[2] and const(0) in t[2] and truth == (t[1] == "Ne"):
             upd_lo(1)
         if t[0] == "op" and t[1] == "Eq" and len(t[2]) == 2 and truth:
@@ -272,7 +288,20 @@ def has_eq_fact(facts, a, b):
             return True
         if t == wantn and not truth:
             return True
+    # n == 1 << k written as a shift and a mask: (n >> k) == 1 and (n & ((1 << k) - 1)) == 0
+    for p2, n in ((a, b), (b, a)):
+        if p2[0] == "op" and p2[1] == "Shl" and len(p2[2]) == 2 and p2[2][0] == const(1):
+            k = p2[2][1]
+            hi_ok = has_eq_fact_plain(facts, mk("Shr", n, k), const(1))
+            lo_ok = has_eq_fact_plain(facts, mk("BitAnd", n, mk("Sub", mk("Shl", const(1), k), const(1))), const(0))
+            if hi_ok and lo_ok:
+                return True
     return False
+
+
+def has_eq_fact_plain(facts, a, b):
+    want, wantn = mk("Eq", a, b), mk("Ne", a, b)
+    return any((t == want and truth) or (t == wantn and not truth) for t, truth in facts)
 
 
 def panic_sites(fn):
